@@ -204,6 +204,30 @@ def stageStep (d : StageDrv) (ws : List String) : StageDrv × String :=
       let ans := receivedAnswer s1 n m beg fin
       ({ d with st := Stage.run s1 (receivedEffects s1 n m) }, boolStr ans)
     | _, _, _, _ => (d, "bad-op")
+  | "receivedn" :: now :: rest =>
+    -- Stage.Received(parts): parts separated by ";;", each n renamed prev hash ftime beg fin
+    let rec parts (d : StageDrv) (ws : List String) (fuel : Nat) : Option (StageDrv × List PartQ) :=
+      match fuel, ws with
+      | 0, _ => none
+      | _, [] => some (d, [])
+      | fuel + 1, n :: renamed :: prev :: hash :: ftime :: beg :: fin :: tl =>
+        match parseTime d ftime, parseInt? beg, parseInt? fin with
+        | some ftime, some beg, some fin =>
+          let q : PartQ := ⟨unesc n, { renamed := unesc renamed, prev := unesc prev, size := 0, hash := unesc hash }, beg, fin, ftime⟩
+          let d := d.note q.n q.m.renamed
+          match tl with
+          | [] => some (d, [q])
+          | ";;" :: tl' => (parts d tl' fuel).map (fun r => (r.1, q :: r.2))
+          | _ => none
+        | _, _, _ => none
+      | _, _ => none
+    match parseTime d now, parts d rest (rest.length + 1) with
+    | some now, some (d, qs) =>
+      if qs.isEmpty then (d, "bad-op")
+      else
+        let r := receivedCount (askPart now) d.st qs
+        ({ d with st := r.2 }, toString r.1)
+    | _, _ => (d, "bad-op")
   | ["status", n, sent, now] =>
     match parseTime d sent, parseTime d now with
     | some sent, some now =>
